@@ -761,6 +761,15 @@ impl G {
             } else {
                 "at-trailing:overflow".into()
             }
+        } else if label.ends_with("too-long") {
+            // by how much the line overshoots (1, 2, 3 or more)
+            let over = t.chars().skip(pos).take_while(|c| *c != '\n').count();
+            let over = match over {
+                0 | 1 => "+1",
+                2 => "+2",
+                _ => "+3-or-more",
+            };
+            format!("at-{label}:{over}")
         } else if label.ends_with("too-many") {
             // too many lines: with or without a leading identifier line are different situations
             let first = if t == "/" || t.starts_with("/\n") {
